@@ -38,7 +38,12 @@ def handle (c : Case) : Res := Id.run do
                 (if tun.getD 3 0 = 0 then "tuning=default" else s!"maxsuper={maxsuper}"),
                 (if tun.getD 3 0 = 0 then "panel=default" else s!"panel={c.p "panel"}"),
                 (if c.pNat "expansions" > 0 then "expansions" else "no-expansion")]
-  if info ≠ 0 then return Res.skip s!"info = {info} on an input built to be nonsingular"
+  if info ≠ 0 then
+    -- dom = 2: every column has one entry of magnitude >= 0.75 (m+n+1) on a transversal, all others below sqrt 2 in
+    -- magnitude: strictly column-dominant after a row permutation, hence nonsingular - a positive info is a false report
+    if c.p "dom" == "2" ∧ m == n then
+      return Res.propFalse s!"singular: info = {info} on a matrix with a strictly dominant transversal (nonsingular for every pivot order)" tags0
+    return Res.skip s!"info = {info} on an input built to be nonsingular"
   let fac := decodeFac c
   ------------------------------------------------------------------ Prop
   if !Struct.wfb fac then
